@@ -175,8 +175,19 @@ func (l *Listener) Endpoint() string {
 
 type Conn struct {
 	*net.TCPConn
-	id  uint32
+	id uint32
+
+	// ack holds the limits which are in force for this connection. Before
+	// the handshake these are the values this side asks for. Afterwards
+	// ReceiveBufSize is the largest chunk this side accepts, SendBufSize the
+	// largest chunk it may send and MaxMessageSize and MaxChunkCount limit
+	// the messages it receives.
 	ack *Acknowledge
+
+	// peerMaxMessageSize and peerMaxChunkCount are the limits of the peer
+	// for the messages this side sends. Zero means no limit.
+	peerMaxMessageSize uint32
+	peerMaxChunkCount  uint32
 
 	closeOnce sync.Once
 }
@@ -211,6 +222,27 @@ func (c *Conn) MaxChunkCount() uint32 {
 	return c.ack.MaxChunkCount
 }
 
+// PeerMaxMessageSize returns the largest message the peer accepts or zero if there is no limit.
+func (c *Conn) PeerMaxMessageSize() uint32 {
+	return c.peerMaxMessageSize
+}
+
+// PeerMaxChunkCount returns the largest number of chunks per message the peer accepts or zero if there is no limit.
+func (c *Conn) PeerMaxChunkCount() uint32 {
+	return c.peerMaxChunkCount
+}
+
+// MinBufSize is the smallest receive and send buffer size
+// a peer may announce in the handshake (Part 6, 7.1.2.3).
+const MinBufSize = 8192
+
+func min32(a, b uint32) uint32 {
+	if a < b {
+		return a
+	}
+	return b
+}
+
 func (c *Conn) Close() (err error) {
 	err = io.EOF
 	c.closeOnce.Do(func() { err = c.close() })
@@ -223,12 +255,22 @@ func (c *Conn) close() error {
 }
 
 func (c *Conn) Handshake(ctx context.Context, endpoint string) error {
+	// the limits for what this side receives. They are announced to the
+	// server and enforced on the receive path, so they have to be the same.
+	own := *c.ack
+	if own.MaxChunkCount == 0 {
+		own.MaxChunkCount = DefaultMaxChunkCount
+	}
+	if own.MaxMessageSize == 0 {
+		own.MaxMessageSize = DefaultMaxMessageSize
+	}
+
 	hel := &Hello{
-		Version:        c.ack.Version,
-		ReceiveBufSize: c.ack.ReceiveBufSize,
-		SendBufSize:    c.ack.SendBufSize,
-		MaxMessageSize: c.ack.MaxMessageSize,
-		MaxChunkCount:  c.ack.MaxChunkCount,
+		Version:        own.Version,
+		ReceiveBufSize: own.ReceiveBufSize,
+		SendBufSize:    own.SendBufSize,
+		MaxMessageSize: own.MaxMessageSize,
+		MaxChunkCount:  own.MaxChunkCount,
 		EndpointURL:    endpoint,
 	}
 
@@ -259,15 +301,17 @@ func (c *Conn) Handshake(ctx context.Context, endpoint string) error {
 		if ack.Version != 0 {
 			return errors.Errorf("uacp: invalid version %d", ack.Version)
 		}
-		if ack.MaxChunkCount == 0 {
-			ack.MaxChunkCount = DefaultMaxChunkCount
-			debug.Printf("uacp %d: server has no chunk limit. Using %d", c.id, ack.MaxChunkCount)
+		if ack.ReceiveBufSize < MinBufSize || ack.SendBufSize < MinBufSize {
+			return errors.Errorf("uacp: invalid buffer sizes in ACK: receive=%d send=%d", ack.ReceiveBufSize, ack.SendBufSize)
 		}
-		if ack.MaxMessageSize == 0 {
-			ack.MaxMessageSize = DefaultMaxMessageSize
-			debug.Printf("uacp %d: server has no message size limit. Using %d", c.id, ack.MaxMessageSize)
-		}
-		c.ack = ack
+		// The ACK contains the limits of the server: its receive buffer and
+		// its message limits bound what this side sends, its send buffer
+		// what this side receives.
+		own.ReceiveBufSize = min32(own.ReceiveBufSize, ack.SendBufSize)
+		own.SendBufSize = min32(own.SendBufSize, ack.ReceiveBufSize)
+		c.ack = &own
+		c.peerMaxMessageSize = ack.MaxMessageSize
+		c.peerMaxChunkCount = ack.MaxChunkCount
 		debug.Printf("uacp %d: recv %#v", c.id, ack)
 		return nil
 
@@ -308,6 +352,19 @@ func (c *Conn) srvhandshake(endpoint string) error {
 		//	c.SendError(ua.StatusBadTCPEndpointURLInvalid)
 		//	return fmt.Errorf("uacp: invalid endpoint url %s", hel.EndpointURL)
 		//}
+		if hel.ReceiveBufSize < MinBufSize || hel.SendBufSize < MinBufSize {
+			c.SendError(ua.StatusBadTCPNotEnoughResources)
+			return errors.Errorf("uacp: invalid buffer sizes in HEL: receive=%d send=%d", hel.ReceiveBufSize, hel.SendBufSize)
+		}
+		// The buffers of this connection must not be larger than what
+		// the client can send and receive. The message limits of the
+		// client bound what this side sends.
+		ack := *c.ack
+		ack.ReceiveBufSize = min32(ack.ReceiveBufSize, hel.SendBufSize)
+		ack.SendBufSize = min32(ack.SendBufSize, hel.ReceiveBufSize)
+		c.ack = &ack
+		c.peerMaxMessageSize = hel.MaxMessageSize
+		c.peerMaxChunkCount = hel.MaxChunkCount
 		if err := c.Send("ACKF", c.ack); err != nil {
 			c.SendError(ua.StatusBadTCPInternalError)
 			return err
